@@ -56,6 +56,11 @@ def r1_ini_normalisation(cx):
     ok = len(up) == 1 and ("section.name in self._dict", True) in guard_texts(up[0]) and U(up[0].args[0]) == "section_dict"
     new = [a for a in walk_body(pc.body) if isinstance(a, ast.Assign) and U(a.targets[0]) == "self._dict[section.name]"]
     ok = ok and len(new) == 1 and ("section.name in self._dict", False) in guard_texts(new[0]) and U(new[0].value) == "section_dict"
+    if not ok:
+        # one statement for both cases:  self._dict.setdefault(section.name, {}).update(section_dict)
+        sd = [x for x in find_calls(pc.body, attr="update") if isinstance(x.func.value, ast.Call) and U(x.func.value) in ("self._dict.setdefault(section.name, {})", "self._dict.setdefault(section.name, dict())")]
+        ok = len(sd) == 1 and [U(a_) for a_ in sd[0].args] == ["section_dict"] and not new and not up and not [t_ for t_, p_ in guard_texts(sd[0], stop=enclosing(sd[0], ast.For))]
+        up = sd or up
     cx.require(ok, up[0] if up else pc, "a repeated section updates the earlier one (later options override), a new section is stored as is", construct="self._dict[section.name].update(section_dict) / = section_dict")
     d = [a for a in walk_body(pc.body) if isinstance(a, ast.Assign) and U(a.targets[0]) == "self._dict"]
     cx.require(len(d) == 1 and U(d[0].value) == "OrderedDict()", d[0] if d else pc, "sections keep document order", construct=short(d[0]) if d else "(none)")
